@@ -508,3 +508,28 @@ Definition h_step (st : hstate) (op : hop) : hstate * hout :=
   end.
 
 Definition h_init : hstate := {| h_buf := []; h_curs := [] |}.
+
+(* ---------------------------------------------- handoff of the writer's buffer, reset *)
+(* A finished message is handed off by MOVING the OwnedArray out of the writer's buffer object
+   (move construction or move assignment); the writer keeps writing into the same object.  A
+   moved-from OwnedArray is empty (C11: OwnedArray move leaves the source empty), so the writer
+   restarts at size 0; readers constructed on the writer's buffer earlier now see that empty buffer;
+   handed-off messages are separate arrays that nothing writes to any more. *)
+Record xstate := { x_h : hstate; x_msgs : list (list N) }.
+
+Inductive xop :=
+| XH (op : hop)                  (* any op of the shared-buffer histories                         *)
+| XHandoff                       (* msg = OwnedArray(std::move( *writer.buffer))  or  msg = std::move(..) *)
+| XReset                         (* writer.buffer->reset()                                        *)
+| XSelfAssign.                   (* *writer.buffer = *writer.buffer (copy and move form)          *)
+
+Definition x_step (st : xstate) (op : xop) : xstate * hout :=
+  match op with
+  | XH o => let (h', out) := h_step (x_h st) o in ({| x_h := h'; x_msgs := x_msgs st |}, out)
+  | XHandoff =>
+      ({| x_h := {| h_buf := []; h_curs := h_curs (x_h st) |}; x_msgs := x_msgs st ++ [h_buf (x_h st)] |}, HOk)
+  | XReset => ({| x_h := {| h_buf := []; h_curs := h_curs (x_h st) |}; x_msgs := x_msgs st |}, HOk)
+  | XSelfAssign => (st, HOk)
+  end.
+
+Definition x_init : xstate := {| x_h := h_init; x_msgs := [] |}.
